@@ -16,4 +16,35 @@ PROPS = {
             "the epsilon of a built problem is observed through the public Debug output of LevMarProblem",
         ],
     },
+    "C15": {
+        "modules": ["VarproModel.Props.C15"],
+        "streams": [{"stream": "mbuilder"}],
+        "exhaustive": True,
+        "exhaustive_tiers": ["quick", "thorough"],
+        "rule": "SeparableModelBuilder sessions: (a) EXHAUSTIVE enumeration of all call sequences of length <= 3 (thorough: <= 4) over a 20-call alphabet "
+                "(function with parameter lists [a],[b],[a,b],[b,a],[a,a],[],[z],['a,b'], wrong arity; partial_deriv a/b/z with arity 1/2; invariant_function; "
+                "independent_variable; initial_parameters of length P, P+1, P-1) for the name lists [a] and [a,b], length <= 2 for six degenerate name lists "
+                "(reordered, empty, duplicate, comma, empty-string, unused name); (b) 3000 (thorough 20000) random nearly-valid sessions with up to 12 names, "
+                "arities 1..10, shared parameters and 0-2 injected defects; i64/f64/f32; compared: Ok / error variant / payload, and the built model's outputs; "
+                "non-trivial = at least two calls or at least one model operation; distinct by hash of names and call lines",
+        "assumptions": ["names are compared as strings; the comma test is String::contains(',')"],
+    },
+    "C16": {
+        "modules": ["VarproModel.Props.C16", "VarproModel.Props.C16Dispatch"],
+        "dispatch": True,
+        "streams": [{"stream": "model"}],
+        "rule": "builder-made models with position-sensitive integer probes f(x,a_1..a_n)_i = x_i + sum_t a_t*8^t + code*8^(n+1) (a swapped or misrouted argument changes the value): "
+                "(a) every ordered subset of size 1..3 of every parameter list of size 1..4, all rotations/reversals of the model's parameter list, both derivative orders, invariant functions before/after; "
+                "(b) every arity 1..10 over random ordered subsets of up to 12 names, random derivative order; (c) misuse stream (C17). i64, f64 and f32, exact comparison of every matrix entry; "
+                "non-trivial = at least one evaluation compared; distinct by hash of the session",
+        "assumptions": ["probe values are exactly representable in the scalar type used (f32 only up to arity 5)"],
+    },
+    "C17": {
+        "modules": ["VarproModel.Props.C17"],
+        "streams": [{"stream": "model"}],
+        "rule": "as C16, plus the misuse stream: 800 (thorough 6000) random valid models where 0-2 functions/derivatives/invariant functions return a vector of length 0, N-1, N+1 or 2N, "
+                "operation sequences of 4-10 calls mixing eval, eval_partial_deriv(k) for k<P, k=P, P+1, usize::MAX, set_params with P, 0, P-1, P+1 values, params(); every result compared exactly "
+                "(value, error variant, payload); a rejected set_params is followed by evaluations that must equal the earlier ones",
+        "assumptions": [],
+    },
 }
